@@ -8,14 +8,17 @@ from . import geo
 DIRS = 'uvw'
 
 
-def spec(kind, degs, mults, dim=None, rational=False, lo=0, hi=1):
+def spec(kind, degs, mults, dim=None, rational=False, lo=0, hi=1, doms=None):
+    """doms: optional per-direction (lo, hi) knot domains (default: the same [lo, hi] everywhere)"""
     degs = tuple(degs)
-    kvs = [fam.pattern(p, m, lo, hi) for p, m in zip(degs, mults)]
-    return dict(kind=kind, degs=degs, kvs=kvs, dim=dim or (2 if kind == 'curve' else 3), rational=rational, mults=tuple(mults))
+    doms = list(doms) if doms else [(lo, hi)] * len(degs)
+    kvs = [fam.pattern(p, m, d[0], d[1]) for p, m, d in zip(degs, mults, doms)]
+    return dict(kind=kind, degs=degs, kvs=kvs, dim=dim or (2 if kind == 'curve' else 3), rational=rational, mults=tuple(mults), doms=doms)
 
 
 def spec_name(sp):
-    dom = '' if sp['kvs'][0][0] == 0 and sp['kvs'][0][-1] == 1 else ' dom[%s,%s]' % (sp['kvs'][0][0], sp['kvs'][0][-1])
+    ends = [(k[0], k[-1]) for k in sp['kvs']]
+    dom = '' if all(e == (0, 1) for e in ends) else (' dom[%s,%s]' % ends[0] if len(set(ends)) == 1 else ' dom' + 'x'.join('[%s,%s]' % e for e in ends))
     return '%s p%s m%s %s%s' % (sp['kind'], ','.join(map(str, sp['degs'])), ','.join(str(m) for m in sp['mults']), 'rat' if sp['rational'] else 'nonrat', dom)
 
 
